@@ -99,6 +99,7 @@ def write_table_nc(table, path):
 
 
 def gen_model(rng, n_ops=None, sinks=True, cmds=None, table=None, metadata=False, min_reads=1, pooled_names=True, libs="csv"):
+    own_table = table is None
     if table is None:
         table = gen_table(rng) if libs == "csv" else gen_table(rng, shape=rng.choice([(rng.randint(2, 12),), (rng.randint(1, 4), rng.randint(2, 5)), (2, rng.randint(1, 3), rng.randint(1, 3))]))
     commands = []
@@ -120,6 +121,15 @@ def gen_model(rng, n_ops=None, sinks=True, cmds=None, table=None, metadata=False
         commands.append({"result": rname, "cmd": "EEMSRead", "args": args})
         pool["nonfuzzy"].append(rname)
         colvals[rname] = [v for v in table["cols"][col]["data"] if v != table["missing"]]
+    if libs != "csv" and own_table and rng.random() < 0.4:
+        # a variable of fuzzy values read as such (DataType = "Fuzzy"): cells a little beyond -1 / +1, inside the 1 % band the
+        # reader accepts, are limited to -1 / +1 by the read
+        data = [rng.choice([-1.015625, -1.0078125, -1.0, -0.5, -0.25, 0.0, 0.25, 0.75, 1.0, 1.0125, 1.015625, 1.0009765625]) for _ in range(table["nrows"])]
+        data[0], data[1 % len(data)] = rng.choice([1.0125, -1.015625, 0.5]), -0.25
+        table["cols"]["FZ"] = {"data": data, "integer": False}
+        commands.append({"result": "In_FZ", "cmd": "EEMSRead", "args": {"InFileName": table["file"], "InFieldName": "FZ", "DataType": "Fuzzy"}})
+        pool["nonfuzzy"].append("In_FZ")      # (the reading command is not declared fuzzy: its result feeds non-fuzzy inputs)
+        colvals["In_FZ"] = list(data)
     n_ops = n_ops if n_ops is not None else rng.randint(2, 12)
     choices = list(cmds or cmdgen.ALL)
     # result names come from a small pool shared by all models of the process (so the same name denotes different kinds of
